@@ -82,6 +82,8 @@ def build_P(ps, floor=1e-9):
 # ---------------------------------------------------------------------------------------------------------------
 # data sets
 
+LOWLEVEL_KINDS = ("normal", "grid", "scaled", "blobs", "line", "sorted", "tiny", "big")  # objective-level checks only
+
 @st.composite
 def x_spec(draw, d_min=1, d_max=4, kinds=("normal", "grid", "scaled", "blobs", "line", "sorted")):
     return {"d": draw(st.integers(d_min, d_max)), "xseed": draw(seeds), "xkind": draw(st.sampled_from(list(kinds)))}
@@ -97,6 +99,10 @@ def build_X(xs, n, nonneg=False, d=None):
         X = rs.randn(n, d) * rs.choice([50.0, 1000.0]) + rs.choice([0.0, 100.0, 5000.0])
     elif kind == "scaled":
         X = rs.randn(n, d) * rs.choice([0.01, 1.0, 30.0]) + rs.choice([0.0, 5.0])
+    elif kind == "tiny":  # data in small units (metres for atomic distances): every kernel / distance is tiny but exact
+        X = rs.randn(n, d) * rs.choice([1e-9, 1e-6, 1e-10, 1e-12])
+    elif kind == "big":  # data in large units
+        X = rs.randn(n, d) * rs.choice([1e4, 1e6])
     elif kind == "blobs":  # data with an actual cluster structure: 2-4 well separated groups
         k = rs.randint(2, 5)
         centres = rs.randint(-1, 2, size=(k, d)) * 4.0 + rs.randn(k, d) * 0.3
@@ -199,3 +205,28 @@ def ref_affinity_for_form(aspec, X):
     if aspec["form"] == "callable":
         return 1.5 * A
     return A
+
+
+# ---------------------------------------------------------------------------------------------------------------
+# feature groups in the containers a user may write them in
+
+def group_containers(groups, seed):
+    """The same groups as lists, integer arrays, or ranges (strided ones included) - per group, decided by `seed`."""
+    if groups is None or seed is None:
+        return groups
+    rs = np.random.RandomState(seed)
+    out = []
+    for g in groups:
+        g = [int(i) for i in g]
+        c = rs.randint(5)
+        steps = set(np.diff(g).tolist()) if len(g) >= 2 else {1}
+        if c >= 3 and len(steps) == 1 and 0 not in steps:
+            st_ = steps.pop()
+            out.append(range(g[0], g[-1] + (1 if st_ > 0 else -1), st_))
+        elif c == 1:
+            out.append(np.array(g, dtype=np.int64))
+        elif c == 2:
+            out.append(np.array(g, dtype=np.int32))
+        else:
+            out.append(g)
+    return out
